@@ -51,3 +51,27 @@ Theorem C03_nonvacuous :
      = [32;46;46;47;46;46;47;46;46;47;122;122;122;122;97;47;113;32]%N.
 Proof. vm_compute. repeat split; reflexivity. Qed.
 Print Assumptions C03_nonvacuous.
+
+(* ---- indexed-repeat(): the argument text is split on top-level commas only (survey.split_function_args, Model/Args.v) ---- *)
+Require Import PX.Model.Args PX.Proofs.Args.
+Theorem C03_arguments_split_losslessly : forall s, join [COMMA] (split_function_args s) = s.
+Proof. exact split_lossless. Qed.
+Print Assumptions C03_arguments_split_losslessly.
+(* an argument such as position(..) or if(a, b, c) stays one argument, so the positions of the later arguments are not shifted *)
+Theorem C03_parenthesised_argument_is_one_piece : forall pre inner post,
+  forallb (fun c => negb (N.eqb c LP) && negb (N.eqb c RP) && negb (N.eqb c COMMA)) pre = true ->
+  forallb (fun c => negb (N.eqb c LP) && negb (N.eqb c RP)) inner = true ->
+  forallb (fun c => negb (N.eqb c LP) && negb (N.eqb c RP) && negb (N.eqb c COMMA)) post = true ->
+  split_function_args (pre ++ [LP] ++ inner ++ [RP] ++ post) = [pre ++ [LP] ++ inner ++ [RP] ++ post].
+Proof. exact parenthesised_group_is_one_piece. Qed.
+Print Assumptions C03_parenthesised_argument_is_one_piece.
+Theorem C03_plain_arguments_split_on_commas : forall s,
+  forallb (fun c => negb (N.eqb c LP) && negb (N.eqb c RP)) s = true -> split_function_args s = split_on COMMA s.
+Proof. exact split_plain. Qed.
+Print Assumptions C03_plain_arguments_split_on_commas.
+Theorem C03_indexed_repeat_source_constants :
+  PX.Gen.Lexer.INDEXED_REPEAT_ABSOLUTE_ARGS = ABSOLUTE_ARG_POSITIONS /\
+  PX.Gen.Lexer.RE_INDEXED_REPEAT_PATTERN = [105;110;100;101;120;101;100;45;114;101;112;101;97;116;92;40;40;63;58;91;94;40;41;93;124;92;40;40;63;58;91;94;40;41;93;124;92;40;91;94;40;41;93;42;92;41;41;42;92;41;41;43;92;41]%N.
+Proof. exact indexed_repeat_constants_pinned. Qed.
+Print Assumptions C03_indexed_repeat_source_constants.
+
